@@ -1149,11 +1149,20 @@ def weave(unit_path):
                     if not mm2:
                         raise WeaveError('%s:%d: bad anchor' % (trel, i + 1))
                     fw.add_tail_hint(mm2.group(1), int(mm2.group(2) or 1), blk, blk_line)
-                elif sd in ('after', 'before'):
+                elif sd in ('after', 'before', 'afteropt', 'beforeopt'):
                     mm2 = re.match(r'/(.*)/\s*(\d+)?$', sarg)
                     if not mm2:
                         raise WeaveError('%s:%d: bad anchor' % (trel, i + 1))
-                    fw.add_hint(sd, mm2.group(1), int(mm2.group(2) or 1), blk, blk_line)
+                    if sd.endswith('opt'):
+                        # hint that serves only the path through the anchored statement (e.g. an early `return`): if that statement is gone,
+                        # so is the path, and the hint is not needed -- not counted as a lost anchor
+                        n_lost = len(fw.lost)
+                        fw.add_hint(sd[:-3], mm2.group(1), int(mm2.group(2) or 1), blk, blk_line)
+                        if len(fw.lost) > n_lost:
+                            info.setdefault('lost_optional', []).extend(fw.lost[n_lost:])
+                            del fw.lost[n_lost:]
+                    else:
+                        fw.add_hint(sd, mm2.group(1), int(mm2.group(2) or 1), blk, blk_line)
                 else:
                     raise WeaveError('%s:%d: unknown sub-directive %s' % (trel, i + 1, sd))
                 i = j
